@@ -107,9 +107,35 @@ def oracle(case, notes=None):
     start = case.get("start")
     start_th = dict({p: getattr(D.get_class(cname)(**(start or {})), p) for p in D.FAMS[cname]["params"]})
     try:
-        fit = fit_params(cname, x, start)
+        # the usual sequence: likelihood at the start values, fit, likelihood after -- all through the SAME object
+        obj = D.get_class(cname)(**(start or {}))
+        with np.errstate(all="ignore"):
+            try:
+                obj.pdf(x[:5]), obj.cdf(x[:5]), obj.icdf(np.array([0.5]))
+            except ZeroDivisionError:
+                pass
+        obj.fit(x)
+        fit = {k: float(v) for k, v in obj.parameters.items()}
     except Exception as e:  # noqa
         return ({"cls": cname, "clause": "fit-exception", "exc": type(e).__name__}, "fit raised %s: %s" % (type(e).__name__, str(e)[:100]))
+    with np.errstate(all="ignore"):
+        p_obj = np.asarray(obj.pdf(x), dtype=float)
+        p_new = np.asarray(D.get_class(cname)(**fit).pdf(x), dtype=float)
+    if not np.array_equal(p_obj, p_new, equal_nan=True):
+        return ({"cls": cname, "clause": "fitted-object-density"},
+                "%s: after evaluate - fit the object reports %r but sum(log dist.pdf(data)) = %r; an instance with these parameters gives %r"
+                % (cname, fit, float(np.sum(np.log(p_obj))), float(np.sum(np.log(p_new)))))
+    # method='mle' with a weights argument is still maximum likelihood (weights only matter for (w)lsq)
+    if case.get("mle_weights") is not None:
+        w = case["mle_weights"] if isinstance(case["mle_weights"], str) else np.linspace(0.5, 1.5, len(x))
+        try:
+            o2 = D.get_class(cname)(**(start or {}))
+            o2.fit(x, method="mle", weights=w)
+            fit_w = {k: float(v) for k, v in o2.parameters.items()}
+        except Exception as e:  # noqa
+            return ({"cls": cname, "clause": "mle-with-weights", "exc": type(e).__name__}, "%s.fit(x, method='mle', weights=%r) raised %s: %s" % (cname, case["mle_weights"], type(e).__name__, str(e)[:100]))
+        if any(not math.isclose(fit_w[k], fit[k], rel_tol=1e-9, abs_tol=1e-12) for k in fit):
+            return ({"cls": cname, "clause": "mle-with-weights"}, "%s.fit(x, method='mle', weights=%r) gives %r, without weights %r" % (cname, case["mle_weights"], fit_w, fit))
     if not all(np.isfinite(v) for v in fit.values()):
         return ({"cls": cname, "clause": "nonfinite"}, "fitted parameters not finite: %r" % fit)
     adm = {"WeibullDistribution": ["alpha", "beta"], "LogNormalDistribution": ["sigma"], "NormalDistribution": ["sigma"],
@@ -221,7 +247,8 @@ def run(ctx):
             th = regular_params(rng, cname)
             cases.append({"cls": cname, "theta": th, "n": rng.choice([100, 300, 1000] if ctx.quick() else [100, 500, 2000, 5000]),
                           "seed": rng.randrange(10 ** 6), "c": rng.choice([0.5, 0.8, 1.5, 2.0]),
-                          "start": None if rep % 2 == 0 else {k: v * rng.uniform(0.8, 1.25) for k, v in th.items()}})
+                          "start": None if rep % 2 == 0 else {k: v * rng.uniform(0.8, 1.25) for k, v in th.items()},
+                          "mle_weights": rng.choice([None, "linear", "quadratic", "cubic", "array"])})
     for rep in range(ctx.n(3, 12)):   # user start values = generating parameters, scale parameters far from 1
         for cname, th in (("GeneralizedGammaDistribution", {"m": rng.uniform(0.85, 1.0), "c": rng.uniform(1.3, 2.0), "lambda_": rng.uniform(0.09, 0.12)}),
                           ("WeibullDistribution", {"alpha": rng.uniform(8, 15), "beta": rng.uniform(1.2, 2.5), "gamma": 0.5}),
